@@ -16,7 +16,7 @@ from adsg_core.optimization.assign_enc.matrix import (Node, NodeExistence, NodeE
                                                        AggregateAssignmentMatrixGenerator, count_src_to_target)
 
 RULE = ('bounded-exhaustive: every pair (1 source, 1 target) over the degree alphabet {0..1, 1, 0..2, 1..2, 2, {0,2}, '
-        '{1,3}, 0..*, 1..*, 2..*} x repeated yes/no, a seeded sample of 1x2 / 2x1 / 2x2 / 2x3 / 3x3 settings with '
+        '{1,3}, 0..3, 2..3, 3, 0..*, 1..*, 2..*} x repeated yes/no, a seeded sample of 1x2 / 2x1 / 2x2 / 2x3 / 3x3 settings with '
         'exclusions, each with the all-present pattern and 1-2 further existence patterns (absent nodes, override '
         'lists); a case is one (settings, pattern); non-trivial = the valid set has >= 2 matrices or the pattern has an '
         'override; distinct by content hash')
@@ -29,7 +29,10 @@ ASSUMPTIONS = ['the per-pair limit (parallel-connection cap = max(2, largest fin
 LEANCHECK_MODULES = ['Adsg.Model.Conn', 'Adsg.Props.C09']
 
 ALPHA = [('list', [0, 1]), ('list', [1]), ('list', [0, 1, 2]), ('list', [1, 2]), ('list', [2]), ('list', [0, 2]),
-         ('list', [1, 3]), ('min', 0), ('min', 1), ('min', 2), ('list', [1, 1]), ('list', [2, 0, 2])]
+         ('list', [1, 3]), ('min', 0), ('min', 1), ('min', 2), ('list', [1, 1]), ('list', [2, 0, 2]),
+         # consecutive lists reaching 3: the per-pair limit must come from the degrees as declared, before a
+         # consecutive list is rewritten to an open-ended node (seeded change C09-s1)
+         ('list', [0, 1, 2, 3]), ('list', [2, 3]), ('list', [3])]
 OVERRIDES = [[0], [1], [0, 1], [1, 2], [2], [0, 2], [2, 3], [1, 2, 3]]
 
 
